@@ -14,7 +14,7 @@ PROPS = {
         "rule": "planted chain complexes C_0 -> ... -> C_L (L = 1..4, dims 0..8 quick / 0..14, zero-dimensional corners) built as d_i = P_{i+1}^-1 E_i P_i with random unimodular P_i and planted diagonals mixing units and "
                 "torsion from a per-ring palette (2,3,4,6,12,5,9, random and 64-200-bit elements, products) over BigInt, i64, i128, Ratio<i64|BigInt>, FF2, FF<3>, FF<5>, Gauss/Eisenstein over i64|BigInt, Poly<x,Q>, Poly<x,F3>; "
                 "route 1 GenericChainComplex::generate(..).homology(): rank = n - r_in - r_out, torsion ~ non-unit invariant factors of d_in (own SNF), every generator is a cycle, vectorize(gen k) = e_k, boundaries have zero coordinates mod torsion; "
-                "route 2 HomologyCalc::calculate on a middle pair: rank, torsion, d_out*B = 0, F*B = I, F*d_in = 0 mod torsion by oracle products; non-trivial = torsion present or both neighbouring ranks >= 1; distinct = hash of the differentials Route 1c: homology assembled by hand on c.reduced() through the public Summand::merge (generators are cycles of the original complex, standard coordinates); vectorize_euc of every boundary is exactly zero.",
+                "route 2 HomologyCalc::calculate on a middle pair: rank, torsion, d_out*B = 0, F*B = I, F*d_in = 0 mod torsion by oracle products; non-trivial = torsion present or both neighbouring ranks >= 1; distinct = hash of the differentials Route 1c: homology assembled by hand on c.reduced() through the public Summand::merge (generators are cycles of the original complex, standard coordinates); vectorize_euc of every boundary is exactly zero. Arbitrary cycles z = sum a_k gen(k) (+ a boundary; a_k zero, small, a multiple of the own order, the previous order, or a palette non-unit): free coordinates exact, every torsion coordinate congruent to a_k modulo its own order for vectorize and vectorize_euc, and exactly zero after reduction whenever the order divides a_k.",
         "assumptions": COMMON_ASSUME + ["machine-integer rings may overflow in SNF: inconclusive", "polynomial complexes over Q are kept <= 4-dimensional (coefficient growth)"],
         "technique": "reference-model monitor: planted complexes with homology known by construction; rank/torsion/generators/coordinate maps judged by the oracle's dense arithmetic and textbook SNF",
         "level_text": "Exploration: tens to hundreds of thousands of planted complexes over 14 Euclidean rings; the answer is known by construction and re-derived by an independent SNF, generators and coordinate maps are re-multiplied exactly. Right level: input property with an exact oracle.",
@@ -114,7 +114,7 @@ PROPS = {
         "rule": "per scalar type (i32,i64,i128,BigInt, Ratio<i64|i128|BigInt>, FF2, FF<2,3,5,7,32749,46337,65537,2147483647>, QuadInt<i64|i128|BigInt,D> for D in -1,-3,2,-2,5,-7): "
                 "seeded histories of 5-30 steps on a pool of 4 values (boundary-biased magnitudes: 0,+-1, 2^31, 2^53, 2^63, 2^127 +-2, 64..2000-bit), each step one of +,-,*,neg in one of the "
                 "six operator forms (val/ref/assign), compared after every step with a BigInt-based model incl. canonical representation, ==, is_zero/is_one and Ord; "
-                "machine types must return the model value when representable and must fail (never wrap) otherwise; non-trivial = history of >= 5 steps; distinct = hash of the history Minimum exactness domain for machine rationals: an overflow panic is a violation when every intermediate of the common-denominator (lcm) algorithm is representable in the symmetric range, inconclusive otherwise.",
+                "machine types must return the model value when representable and must fail (never wrap) otherwise; non-trivial = history of >= 5 steps; distinct = hash of the history Minimum exactness domain for machine rationals: an overflow panic is a violation when every intermediate of the common-denominator (lcm) algorithm is representable in the symmetric range, inconclusive otherwise. The same for machine quadratic integers: an overflow in +, -, * is a violation when the four partial products ac, bd, ad, bc, bd*p and the partial sums of the schoolbook formulas x = ac + bd p, y = ad + bc + bd q (w^2 = p + q w) are representable.",
         "assumptions": COMMON_ASSUME + [
             "composite machine-integer types (Ratio<i64>, QuadInt<i64,D>) may overflow in an intermediate product although the result is representable: counted as inconclusive, not as violation",
             "BigInt (num-bigint) itself is additionally checked against residues modulo three 61-bit primes computed from decimal digits with u128 arithmetic",
@@ -243,7 +243,7 @@ PROPS = {
                 "every generator in h-degree 0, d z = 0, and for h != 0 the class is non-torsion (rank[d_-1 | z] = rank d_-1 + 1 by own elimination modulo 2^31-1 on the exported matrices); "
                 "(b) links (table, split unions, switched crossings): homology with (h,t) = (1,0) over Z free of total rank 2^{#components}, with (0,1) over Q of total rank 2^{#components} (components counted by the oracle); "
                 "(c) ss_invariant for c = 2, 3 over i64, c = 2 over BigInt, c = H over F2[H], F3[H], Q[H]: reduced = unreduced, ss(mirror) = -ss, unchanged by 1-4 PD moves (relabel, permute, reverse, R1; bracket-checked), "
-                "ss(K-) <= ss(K+) <= ss(K-) + 2 for a random crossing of every diagram, 0 on kinked unknots; non-trivial = >= 3 crossings (or >= 2 components for (b)); distinct = hash of the diagram(s) and parameters In the reduced theory half of the canonical-cycle cases mark a random edge as base point through the public TngComplexBuilder. A third of the canonical-cycle cases compute only the window -1..=1 (set_h_range before or after the crossings are absorbed); for h != 0 the degree-0 homology must have rank 2 (reduced: 1).",
+                "ss(K-) <= ss(K+) <= ss(K-) + 2 for a random crossing of every diagram, 0 on kinked unknots; non-trivial = >= 3 crossings (or >= 2 components for (b)); distinct = hash of the diagram(s) and parameters In the reduced theory half of the canonical-cycle cases mark a random edge as base point through the public TngComplexBuilder. A third of the canonical-cycle cases compute only the window -1..=1 (set_h_range before or after the crossings are absorbed); for h != 0 the degree-0 homology must have rank 2 (reduced: 1). A quarter of the plain canonical-cycle cases go through the public builder with a random explicit crossing order and, for <= 7 crossings, with auto_deloop / auto_elim switched off (cycles carried through finalize, half of the time through a deferred eliminate_all).",
         "assumptions": COMMON_ASSUME + ["absolute values of ss are pinned only for unknots; otherwise relations between real runs are checked", "for h = 0 a vanishing canonical cycle is legitimate (the property demands non-torsion only for h != 0)"],
         "technique": "reference-model + metamorphic monitor: canonical cycles checked on exported matrices with own modular rank; ss compared across isotopic diagrams, variants, mirror and crossing changes",
         "level_text": "Exploration: thousands to hundreds of thousands of knot diagrams, crossings and move sequences; cycle conditions are decided exactly, the s-invariant through the relations the statement lists. Right level: input/history/configuration property.",
@@ -255,8 +255,8 @@ PROPS = {
         "rule": "the 23 built-in strongly invertible PD codes, their mirrors, and the same codes with the crossings listed in random orders (sinv_knot_from_code); FF2 with (h,t) in {(0,0),(1,0),(0,1),(1,1)} (reduced only for t=0) "
                 "and F2[H] with (H,0); checks: d^2 = 0 (check_d_all), KhI ranks per degree = homology of the explicitly built Cone(1+tau) over F2 (own cube, tau induced on states and circle labels by e -> (n+1-e) mod n + 1; codes with <= 7 (quick) / 8 crossings), "
                 "symmetric construction without the involutive part = KhHomology::new of the underlying knot, over F2[H]: rank_i = dim Cone at H=1, rank_i + tors_i + tors_{i+1} = dim Cone at H=0, "
-                "ssi unchanged by the listing order, s0 <= s1, s0 = s1 mod 2, ssi(mirror) = (-s1,-s0), reduced = unreduced; distinct = hash(code order, mirror, h, t, reduced) Windowed computation through SymTngBuilder::set_h_range equals the full complex inside the window.",
-        "assumptions": COMMON_ASSUME + ["no generator of new strongly invertible diagrams exists: inputs are the built-in table under reordering and mirroring", "over F2[H] the cone comparison uses necessary conditions (dimensions at H=0 and H=1), all torsion being H-primary for these graded complexes"],
+                "ssi unchanged by the listing order, s0 <= s1, s0 = s1 mod 2, ssi(mirror) = (-s1,-s0), reduced = unreduced; distinct = hash(code order, mirror, h, t, reduced) Windowed computation through SymTngBuilder::set_h_range equals the full complex inside the window. User codes in the symmetric numbering beyond the table: every code renumbered from the other fixed point of the involution (all labels moved by half a turn; a third of the F2[H] cases, a quarter of the cone cases) and the 9-crossing code of 9_46 (s0 != s1; ssi relations and d^2 = 0).",
+        "assumptions": COMMON_ASSUME + ["no generator of new strongly invertible diagrams exists: inputs are the built-in table and one further user code (9_46) under reordering, mirroring and renumbering from the other fixed point", "over F2[H] the cone comparison uses necessary conditions (dimensions at H=0 and H=1), all torsion being H-primary for these graded complexes"],
         "technique": "reference-model + metamorphic monitor: KhI computed by the library compared with an explicitly constructed mapping cone of 1+tau on an own F2 cube; ssi compared across listing orders, mirrors and variants",
         "level_text": "Exploration over the available symmetric diagrams x parameters x listing orders (thousands of runs): the cone definition is checked against an independent construction, the invariants through their stated relations. Right level given that the input family is a finite table plus reorderings.",
         "level_note": "Trusts the own cube and the induced involution (the oracle self-checks that tau maps circles to circles and preserves degree).",
